@@ -20,6 +20,13 @@ ASSUME = [
 
 
 def bases(tier):
+    # a task waiting for a CONTAINER (declared before or after it) while lower-ranked work is ready
+    for wrap in ("before", "after"):
+        for ef in itertools.product((1, 3), repeat=3):
+            for al in (("r1", "r1", "r1"), ("r1", "r2", "r1")):
+                for pr in itertools.product((500, 700), repeat=3):
+                    yield {"n": 3, "L": 60, "eff": 1.0, "ef": ef, "al": al, "es": (), "pr": pr, "gap": 0, "pin": None, "leave": False, "lim": None,
+                           "z": None, "alap": False, "wrap": wrap}
     ns = (2,) if tier == "quick" else (2, 3)
     for n in ns:
         allocs = ("r1", "r2", "team") if n == 2 else ("r1",)
@@ -68,6 +75,10 @@ def universe(tier):
                     yield {"base": b, "in": i, "scen": scen}
 
 
+def i_long(item):
+    return item["in"]["m"] >= 180
+
+
 def specs(item):
     b = item["base"]
     base = c07.to_spec(b)
@@ -78,7 +89,8 @@ def specs(item):
     if not i["m"]:
         t = {"id": "zz", "milestone": True, "prio": 1}
     if i.get("dep"):
-        t["deps"] = [base["tasks"][0]["id"]]
+        first = base["tasks"][0]
+        t["deps"] = [first["id"] if not first.get("children") else first["id"] + "." + first["children"][0]["id"]]
     if i.get("sched"):
         t["sched"] = i["sched"]
     if item.get("scen") == 2:
@@ -117,8 +129,10 @@ def evaluate(item):
     zz = t2["zz"]
     # non-trivial: the intruder actually competes (shares a resource with a base task and got work or failed)
     r["nt"] = any(item["in"]["res"] in c07.ALLOCS[a] for a in item["base"]["al"])
+    if i_long(item):
+        r["nt"] = True
     # direct clause on the base run
-    bt = base["tasks"]
+    bt = [t for t in base["tasks"] if not t.get("children")] if not item["base"].get("wrap") else []
     for x, y in itertools.combinations(bt, 2):
         if x.get("deps") or y.get("deps") or x["alloc"] != y["alloc"] or len(x["alloc"]) != 1 or x["prio"] == y["prio"]:
             continue
